@@ -37,6 +37,18 @@ def c01_jobs(tier):
     return jobs
 
 
+def c19_jobs(tier):
+    jobs = []
+    shards = 2 if tier == "quick" else 8
+    cases = "3000" if tier == "quick" else "60000"
+    for sb in (4096, 0):
+        p = {"sndbuf": str(sb)} if sb else {}
+        p = dict(p, cases=cases if sb else str(int(cases) // 3))
+        for b in ("os", "memfd", "inproc"):
+            jobs.append(dict(build=b, params=p, shards=shards))
+    return jobs
+
+
 PROPS = {
     "C01": dict(
         jobs=c01_jobs,
@@ -48,6 +60,18 @@ PROPS = {
             rule="cases = byte payloads (lengths: tiny set, every length within +/-16 of each k x packet-capacity boundary k=1..4 enumerated, log-uniform up to the tier maximum) and serde value trees/static types, one process per reported SO_SNDBUF; non-trivial = payload of >=2 packets, or within +/-16 of a boundary, or a typed value with >=3 levels of nesting containing a map/struct/float; distinct = distinct (build, params, canonical JSON of the case)",
             exhaustive="all 132 lengths within +/-16 of the four packet-capacity boundaries, per send-buffer configuration, on the bytes channel",
             assumptions=COMMON_ASSUMPTIONS + ["the value reported for SO_SNDBUF is varied by interposing getsockopt (kernel buffers keep their real size) except in the real_sndbuf jobs of the thorough tier"],
+        ),
+    ),
+    "C19": dict(
+        jobs=c19_jobs,
+        cross_build=True,
+        meta=dict(
+            level="exploration",
+            technique="model-based differential testing: generated single-threaded API programs run in lock-step with an ideal FIFO world model on three builds, traces compared across builds",
+            claim="Each generated program (<=60 operations over <=6 channels plus one-shot servers, receiver sets and regions) is executed by the OS, memfd and in-process builds side by side with an executable model of ideal unbounded FIFO channels; every observable result (values, order, Empty, Disconnected, send Ok/Err, select events per member, accept results, attachment identity via probes) is compared with the model at once and the normalised traces are compared across builds. Sampling of the program space, not a proof.",
+            note="Programs are constructed so that the model defines every outcome (no moved-out receiver use, no call that would block, kernel-buffer budget respected, <=8 attachments per message, one connect per server, acyclic channel families). The model itself is trusted; select batches are flattened per member.",
+            rule="cases = generated programs (vector of operations with index selectors, shrinkable); non-trivial = the executed program used >=3 channels, transferred at least one endpoint inside a message and observed at least one disconnection; distinct = distinct (build, params, canonical JSON of the program)",
+            assumptions=COMMON_ASSUMPTIONS + ["the reference model of section 3.3 of DESIGN.md is the specification of 'ideal unbounded FIFO channel'", "release of in-flight descriptors is synchronous with the close that destroys the carrying queue (measured in the spike, relied on for exact predictions)"],
         ),
     ),
 }
